@@ -19,6 +19,10 @@ type c13Case struct {
 	Pts    []ref.F     `json:"pts"` // x y pairs
 	Layout geom.Layout `json:"layout"`
 	Via    string      `json:"via"` // flat | multipoint
+	// Ext: the same extra ordinates for every input point (Z = Ext[0], M = Ext[1]; a three-ordinate
+	// layout takes Ext[0]) instead of a unique tag per point - values that echo a coordinate of one
+	// of the extreme points, so that an ordinate read one slot off looks like a coincidence.
+	Ext []ref.F `json:"ext,omitempty"`
 }
 
 func init() {
@@ -47,6 +51,10 @@ func c13Flat(cs c13Case) []float64 {
 	for i := 0; i < n; i++ {
 		flat = append(flat, float64(cs.Pts[2*i]), float64(cs.Pts[2*i+1]))
 		for k := 2; k < st; k++ {
+			if cs.Ext != nil {
+				flat = append(flat, float64(cs.Ext[(k-2)%len(cs.Ext)]))
+				continue
+			}
 			flat = append(flat, float64(1000*(i+1)+k)) // unique tag per input point and ordinate
 		}
 	}
@@ -429,6 +437,76 @@ func c13Run(c *engine.Ctx) {
 		}
 		c.Count("convex_position_cases", 1)
 		c13Exec(c, c13Case{Pts: pts, Layout: layouts[i%4], Via: "flat"})
+	})
+	// extra ordinates that echo coordinates: 60 points in convex position (both shapes, 8
+	// symmetries); for every ordered pair (P, Q) of the eight directional extremes (min/max of x, y,
+	// x+y, x-y) (a) the set shifted along x so that P.x = Q.y, in XYZ and XYM with Z = M = P.y for
+	// every point - (y, z) of Q then reads like (x, y) of P; (b) in XYZM with Z = P.x, M = P.y
+	// - (z, m) of every point reads like P
+	type echoJob struct{ sym, shape int }
+	var echoes []echoJob
+	for sym := 0; sym < 8; sym++ {
+		for shape := 0; shape < 2; shape++ {
+			echoes = append(echoes, echoJob{sym, shape})
+		}
+	}
+	c.Parallel(len(echoes), func(i int) {
+		j := echoes[i]
+		const n = 60
+		var set [][2]float64
+		for k := 0; k < n; k++ {
+			x := float64(k)
+			y := x * x
+			if j.shape == 1 {
+				y = x * (x + 1) / 2
+				if k%2 == 1 {
+					x = -x
+				}
+			}
+			if j.sym&1 != 0 {
+				x = -x
+			}
+			if j.sym&2 != 0 {
+				y = -y
+			}
+			if j.sym&4 != 0 {
+				x, y = y, x
+			}
+			set = append(set, [2]float64{x, y})
+		}
+		keys := []func(p [2]float64) float64{
+			func(p [2]float64) float64 { return p[0] }, func(p [2]float64) float64 { return -p[0] },
+			func(p [2]float64) float64 { return p[1] }, func(p [2]float64) float64 { return -p[1] },
+			func(p [2]float64) float64 { return p[0] + p[1] }, func(p [2]float64) float64 { return -p[0] - p[1] },
+			func(p [2]float64) float64 { return p[0] - p[1] }, func(p [2]float64) float64 { return p[1] - p[0] },
+		}
+		var ext [][2]float64
+		for _, key := range keys {
+			best := set[0]
+			for _, p := range set {
+				if key(p) < key(best) {
+					best = p
+				}
+			}
+			ext = append(ext, best)
+		}
+		for _, P := range ext {
+			for _, Q := range ext {
+				if P == Q {
+					continue
+				}
+				tx := Q[1] - P[0]
+				var shifted, plain []ref.F
+				for _, p := range set {
+					shifted = append(shifted, ref.F(p[0]+tx), ref.F(p[1]))
+					plain = append(plain, ref.F(p[0]), ref.F(p[1]))
+				}
+				c.Count("coordinate_echo_cases", 3)
+				c13Exec(c, c13Case{Pts: shifted, Layout: geom.XYZ, Via: "flat", Ext: []ref.F{ref.F(P[1])}})
+				c13Exec(c, c13Case{Pts: shifted, Layout: geom.XYM, Via: "flat", Ext: []ref.F{ref.F(P[1])}})
+				c13Exec(c, c13Case{Pts: plain, Layout: geom.XYZM, Via: "flat", Ext: []ref.F{ref.F(P[0]), ref.F(P[1])}})
+			}
+		}
 	})
 	// few points whose directions from the lowest point differ by a cross product of +-1 or +-2
 	// at magnitudes up to 2^20 (lattice neighbours (n,n-1),(n+1,n); consecutive Fibonacci pairs):
